@@ -22,6 +22,16 @@ func cmdDump(args []string) int {
 	if len(args) > 0 {
 		pat = args[0]
 	}
+	if pat == "-baseline" {
+		dumpBaseline(p)
+		return 0
+	}
+	if pat == "-renames" {
+		for _, n := range renameNotes {
+			fmt.Println(n)
+		}
+		return 0
+	}
 	for _, f := range p.Funcs {
 		n := FuncName(f)
 		if pat == "-names" {
